@@ -621,6 +621,11 @@ pub fn scenarios() -> Vec<Builder> {
     add!("Backend-persist", || backend("Backend-persist", BackendCfg { persist: true, snapshot_interval: 100_000, max_wal: 64 << 20, max_elements: 48, populate: 6, cosine: false }));
     add!("Backend-persist-snapshot-due", || backend("Backend-persist-snapshot-due", BackendCfg { persist: true, snapshot_interval: 1, max_wal: 64 << 20, max_elements: 48, populate: 6, cosine: false }));
     add!("Backend-persist-rotation-due", || backend("Backend-persist-rotation-due", BackendCfg { persist: true, snapshot_interval: 3, max_wal: 96, max_elements: 48, populate: 6, cosine: false }));
+    // rotation after EVERY logged frame (threshold below the smallest frame) so that delete, batch_delete
+    // and update_metadata also run their rotate_wal_if_needed / manifest section, with and without a snapshot due
+    add!("Backend-persist-rotate-every-frame", || backend("Backend-persist-rotate-every-frame", BackendCfg { persist: true, snapshot_interval: 100_000, max_wal: 8, max_elements: 48, populate: 6, cosine: false }));
+    add!("Backend-persist-rotate-every-frame-snapshot-due", || backend("Backend-persist-rotate-every-frame-snapshot-due", BackendCfg { persist: true, snapshot_interval: 1, max_wal: 8, max_elements: 48, populate: 6, cosine: false }));
+    add!("Engine-lru-persist-rotate-every-frame", || engine("Engine-lru-persist-rotate-every-frame", EngineCfg { strategy: "lru", cache_cap: 2, persist: true, snapshot_interval: 2, max_wal: 8, hot_soft: 100, hot_hard: 200, max_elements: 96, logger: false, populate: 0 }));
     add!("Engine-lru", || engine("Engine-lru", EngineCfg { strategy: "lru", cache_cap: 4, persist: false, snapshot_interval: 100_000, max_wal: 64 << 20, hot_soft: 100, hot_hard: 200, max_elements: 96, logger: false, populate: 6 }));
     add!("Engine-learned-untrained-logger", || engine("Engine-learned-untrained-logger", EngineCfg { strategy: "learned-untrained", cache_cap: 4, persist: false, snapshot_interval: 100_000, max_wal: 64 << 20, hot_soft: 100, hot_hard: 200, max_elements: 96, logger: true, populate: 6 }));
     add!("Engine-learned-hot-hard-limit", || engine("Engine-learned-hot-hard-limit", EngineCfg { strategy: "learned", cache_cap: 2, persist: false, snapshot_interval: 100_000, max_wal: 64 << 20, hot_soft: 1, hot_hard: 2, max_elements: 96, logger: true, populate: 6 }));
